@@ -377,7 +377,17 @@ def run_obligation(prop, tier, tu, o, cfg, unwind_hints, seed, wd):
             if new > cur:
                 unwindset[k] = new; grew = True
         if not grew:
-            r.update(status="inconclusive", reason="unwinding bound cap %d reached for %s" % (maxunwind, ",".join(p["name"] for p in uw[:4]))); break
+            # cap reached: if other properties already fail (e.g. an out-of-bounds loop that never terminates) go on and
+            # try to confirm those; otherwise there is no verdict
+            capped = "unwinding bound cap %d reached for %s" % (maxunwind, ",".join(p["name"] for p in uw[:4]))
+            others = [p for p in props if p["status"] == "FAILURE" and ".unwind." not in p["name"] and not p["desc"].startswith("VPCOVER")]
+            if others and use_trace:
+                r["unwind_capped"] = capped; break
+            if others and not use_trace:
+                use_trace = True; r["_cap_once"] = True
+                if r.get("_cap_twice"): r.update(status="inconclusive", reason=capped); break
+                r["_cap_twice"] = True; continue
+            r.update(status="inconclusive", reason=capped); break
     r["cbmc_iterations"] = iters
     r["unwind"] = unwind; r["unwindset"] = unwindset
     r["stats"] = st
@@ -397,6 +407,8 @@ def run_obligation(prop, tier, tu, o, cfg, unwind_hints, seed, wd):
         tail = out[-600:].replace("\n", " ")
         r.update(status="inconclusive", reason="solver error / out of memory (limit %g GB): %s" % (mem, tail[-300:])); return r
     bad_cov = [p for p in covers if p["status"] != "FAILURE"]
+    if r.get("unwind_capped"):
+        bad_cov = []          # capped run: only used to confirm concrete failures, never to discharge
     if not covers:
         r.update(status="inconclusive", reason="harness has no reachability witness (vp_cover)"); return r
     if bad_cov:
@@ -409,8 +421,11 @@ def run_obligation(prop, tier, tu, o, cfg, unwind_hints, seed, wd):
     r["_covers"] = [p["name"] for p in covers]
     if unknown and not fails:
         r.update(status="inconclusive", reason="cbmc status %s for %s" % (unknown[0]["status"], unknown[0]["name"])); return r
+    fails = [p for p in fails if ".unwind." not in p["name"]] if r.get("unwind_capped") else fails
     if fails:
         r["status"] = "failed"; r["failed_properties"] = fails
+    elif r.get("unwind_capped"):
+        r.update(status="inconclusive", reason=r["unwind_capped"])
     else:
         r["status"] = "discharged"
     return r
